@@ -8,7 +8,7 @@ use hashbrown::HashTable;
 use std::any::Any;
 use std::panic::{catch_unwind, AssertUnwindSafe};
 
-pub trait ElemT: Clone + 'static {
+pub trait ElemT: Clone + Send + Sync + 'static {
     const TRACKED: bool;
     fn make(class: u32, v: u32, h: u64) -> Self;
     fn class(&self) -> u32;
@@ -618,6 +618,52 @@ impl<E: ElemT> TableDrv<E> {
                 }
                 r.extend(ids);
                 ev.r = r;
+            }
+            "par_iter" => {
+                // n: 0 par_iter, 1 par_iter_mut; j = thread-pool size
+                use rayon::prelude::*;
+                let m = self.tabs[t - 1].as_mut().unwrap();
+                let pool = rayon::ThreadPoolBuilder::new().num_threads(ev.j.max(1) as usize).build().unwrap();
+                ev.y = if ev.n == 0 {
+                    pool.install(|| m.par_iter().map(|e| e3(e)).collect::<Vec<_>>())
+                } else {
+                    pool.install(|| m.par_iter_mut().map(|e| e3(&*e)).collect::<Vec<_>>())
+                };
+                ev.n = 0;
+            }
+            "par_drain" | "into_par_iter" => {
+                // n: 0 = consume everything, 1 = short-circuiting consumer (find_any class k); j = thread-pool size
+                use rayon::prelude::*;
+                let pool = rayon::ThreadPoolBuilder::new().num_threads(ev.j.max(1) as usize).build().unwrap();
+                let into = ev.op == "into_par_iter";
+                let mut owned = if into { self.tabs[t - 1].take() } else { None };
+                let mut kept: Vec<E> = vec![];
+                if ev.n == 0 {
+                    kept = if into {
+                        let m = owned.take().unwrap();
+                        pool.install(|| m.into_par_iter().collect::<Vec<E>>())
+                    } else {
+                        let m = self.tabs[t - 1].as_mut().unwrap();
+                        pool.install(|| m.par_drain().collect::<Vec<E>>())
+                    };
+                    ev.y = kept.iter().map(|e| e3(e)).collect();
+                    ev.r = vec![kept.len() as i64];
+                } else {
+                    let found = if into {
+                        let m = owned.take().unwrap();
+                        pool.install(|| m.into_par_iter().find_any(|e| e.class() == k))
+                    } else {
+                        let m = self.tabs[t - 1].as_mut().unwrap();
+                        pool.install(|| m.par_drain().find_any(|e| e.class() == k))
+                    };
+                    ev.r = vec![found.as_ref().map_or(-1, |e| e.id() as i64)];
+                    ev.y = found.iter().map(|e| e3(e)).collect();
+                    kept.extend(found);
+                }
+                self.keep(kept);
+                if into {
+                    self.tabs[t - 1] = Some(HashTable::new_in(CheckingAlloc));
+                }
             }
             other => panic!("unknown table op {}", other),
         }
